@@ -70,7 +70,7 @@ DevOK(e) ==
          mx == IF e.mixin THEN mix \cup {x} ELSE mix
      IN /\ DOMAIN nd = Live \cup {x}
         /\ V # {} /\ V \subseteq Classes
-        /\ (Len(e.bases) >= 2 \/ Anc(d2, x) \cap mx # {})
+        /\ (Len(e.bases) >= 2 \/ Anc(d2, x) \cap mx # {} \/ degraded)   \* degraded: a later re-merge moves the shared object again
         /\ \A y \in V : (Anc(d2, y) \cup {y}) \cap Anc(d2, x) # {}
         /\ BadOf(e) \ {x} = bad \ {x}
 (* second face of the same deviation: the shared object of a plain mixin was rewritten by an  *)
